@@ -223,7 +223,26 @@ func (c *controllerFacade) Import(ctx context.Context, stream chan ledger.Log) e
 			return ledgercontroller.NewErrImport(errors.New("ledger is not in initializing state"))
 		}
 
-		return ctrl.Import(ctx, stream)
+		if err := ctrl.Import(ctx, stream); err != nil {
+			return err
+		}
+
+		// Imported rows carry explicit ids. Move the id sequences past them now: the first write is not
+		// guaranteed to go through handleState (an atomic bulk opens its transaction on the underlying
+		// controller), and would otherwise draw ids that are already taken.
+		for _, seq := range []struct{ name, table string }{
+			{"transaction_id", "transactions"},
+			{"log_id", "logs"},
+		} {
+			if _, err := conn.NewRaw(fmt.Sprintf(
+				`select setval('"%s"."%s_%d"', (select max(id) from "%s".%s where ledger = '%s')::bigint)`,
+				c.ledger.Bucket, seq.name, c.ledger.ID, c.ledger.Bucket, seq.table, c.ledger.Name,
+			)).Exec(ctx); err != nil {
+				return fmt.Errorf("failed to update %s sequence value: %w", seq.name, err)
+			}
+		}
+
+		return nil
 	})
 }
 
